@@ -162,20 +162,26 @@ Proof.
 Qed.
 
 (* ---- the alias verdict ---- *)
+Lemma alias_value g imp (ss : list filt) :
+  wf_graph g -> (forall f, In f ss -> exists_f ceqb g f = true) -> pw_unrel ceqb (map fid ss) -> ss <> [] ->
+  V g (any_cfg imp (map (@to_u comp) ss)) = of_viol (Ok (realised imp (map (fun S => (S, others_of ceqb g imp S ss)) ss))).
+Proof.
+  intros Hwf Hex Hpw Hne.
+  unfold AlgebraProofs.V, verdict. rewrite alias_anything, (drop_children_unrelated ss Hpw).
+    change (snd (assert_applies ceqb rmatch g (mk_ucfg ShouldNot imp true (map (@to_u comp) ss) (map (@to_u comp) ss))))
+      with (V g (mk_ucfg ShouldNot imp true (map (@to_u comp) ss) (map (@to_u comp) ss))).
+    rewrite verdict_unfold by (destruct ss; simpl; congruence).
+    rewrite !(convert_plain rmatch g). rewrite viol_should_not_exc. unfold other_query, importers_of, importees_of.
+    destruct imp; [rewrite (other_out_alias g ss Hwf Hex Hpw)|rewrite (other_in_alias g ss Hwf Hex Hpw)]; reflexivity.
+Qed.
+
 Theorem alias_verdict g imp (ss : list filt) :
   wf_graph g -> (forall f, In f ss -> exists_f ceqb g f = true) -> pw_unrel ceqb (map fid ss) -> ss <> [] ->
   (V g (any_cfg imp (map (@to_u comp) ss)) = Pass <-> spec_holds ceqb g ShouldNot imp true ss ss = true) /\
   is_err (V g (any_cfg imp (map (@to_u comp) ss))) = false.
 Proof.
   intros Hwf Hex Hpw Hne.
-  assert (HV : V g (any_cfg imp (map (@to_u comp) ss)) =
-               of_viol (Ok (realised imp (map (fun S => (S, others_of ceqb g imp S ss)) ss)))).
-  { unfold AlgebraProofs.V, verdict. rewrite alias_anything, (drop_children_unrelated ss Hpw).
-    change (snd (assert_applies ceqb rmatch g (mk_ucfg ShouldNot imp true (map (@to_u comp) ss) (map (@to_u comp) ss))))
-      with (V g (mk_ucfg ShouldNot imp true (map (@to_u comp) ss) (map (@to_u comp) ss))).
-    rewrite verdict_unfold by (destruct ss; simpl; congruence).
-    rewrite !(convert_plain rmatch g). rewrite viol_should_not_exc. unfold other_query, importers_of, importees_of.
-    destruct imp; [rewrite (other_out_alias g ss Hwf Hex Hpw)|rewrite (other_in_alias g ss Hwf Hex Hpw)]; reflexivity. }
+  pose proof (alias_value g imp ss Hwf Hex Hpw Hne) as HV.
   rewrite HV.
   assert (Hiff : realised imp (map (fun S => (S, others_of ceqb g imp S ss)) ss) = [] <-> spec_holds ceqb g ShouldNot imp true ss ss = true).
   { unfold spec_holds. split.
@@ -188,6 +194,20 @@ Proof.
   destruct (realised imp (map (fun S => (S, others_of ceqb g imp S ss)) ss)) as [|l ls] eqn:ER; cbn [of_viol is_err].
   - split; [|reflexivity]. split; [intros _; apply Hiff; reflexivity|reflexivity].
   - split; [|reflexivity]. split; [discriminate|]. intros H. apply Hiff in H. discriminate.
+Qed.
+
+(* C03 for the aliases: the report lists exactly the imports between a subject and something outside every subject *)
+Theorem alias_report g imp (ss : list filt) l :
+  wf_graph g -> (forall f, In f ss -> exists_f ceqb g f = true) -> pw_unrel ceqb (map fid ss) -> ss <> [] ->
+  (In l (lines_of (V g (any_cfg imp (map (@to_u comp) ss)))) <->
+   exists S e, In S ss /\ In e (imps g) /\ is_other ceqb imp S ss (orient imp e) = true /\ l = conc imp e).
+Proof.
+  intros Hwf Hex Hpw Hne. rewrite (alias_value g imp ss Hwf Hex Hpw Hne).
+  assert (Hl : forall ls : list (@line comp), lines_of (of_viol (Ok ls)) = ls) by (intros [|x ls]; reflexivity).
+  rewrite Hl. change (map (fun S => (S, others_of ceqb g imp S ss)) ss) with (other_table ceqb g imp ss ss).
+  rewrite (in_realised_other ceqb). split.
+  - intros [S [e [HS [He ->]]]]. unfold others_of in He. apply filter_In in He. exists S, e. tauto.
+  - intros [S [e [HS [He [Ho ->]]]]]. exists S, e. split; [exact HS|]. split; [|reflexivity]. unfold others_of. apply filter_In. auto.
 Qed.
 
 End AliasProofs.
